@@ -67,6 +67,8 @@ class Directive:
         self.expect_fail = False
         self.elide_async = False
         self.derive = None
+        self.traits = []
+        self.nopub = False
         self.sig_rewrites = []    # (tag, a, b)
         self.rewrites = []        # (tag, all, a, b)
         self.requires = None
@@ -135,10 +137,14 @@ def parse_directive(text, line):
                     d.ret = s[4:].strip()
                 elif s == 'expect-fail':
                     d.expect_fail = True
+                elif s == 'nopub':
+                    d.nopub = True
                 elif s == 'elide-async':
                     d.elide_async = True
                 elif s.startswith('derive'):
                     d.derive = [x.strip() for x in s[6:].split(',') if x.strip()]
+                elif s.startswith('traits '):
+                    d.traits = s.split()[1:]
                 elif s.startswith('prefix '):
                     d.prefix = s[7:]
                 elif s.startswith('sig '):
@@ -344,6 +350,98 @@ def strip_attrs_and_vis(text):
     return text
 
 
+def publicize(text, kind):
+    """Make a struct and all of its fields `pub` (single-crate verification file: visibility is irrelevant
+    to behaviour, but Verus' opaqueness rules want specs to see the fields)."""
+    if kind == 'struct':
+        toks = rustsrc.tokenize(text)
+        ins = []
+        for i, t in enumerate(toks):
+            if t.kind == 'punct' and t.text in ('{', '('):
+                # only the outermost field list
+                close = rustsrc.match_close(toks, i)
+                depth = 0
+                expect = True
+                j = i + 1
+                while j < close:
+                    tt = toks[j]
+                    if tt.kind == 'punct' and tt.text in rustsrc.OPEN:
+                        j = rustsrc.match_close(toks, j) + 1
+                        expect = False
+                        continue
+                    if tt.kind == 'punct' and tt.text == '<':
+                        depth += 1
+                    elif tt.kind == 'punct' and tt.text == '>':
+                        depth -= 1
+                    elif tt.kind == 'punct' and tt.text == ',' and depth == 0:
+                        expect = True
+                        j += 1
+                        continue
+                    if expect:
+                        ins.append(tt.start)
+                        expect = False
+                    j += 1
+                break
+        for off in reversed(ins):
+            text = text[:off] + 'pub ' + text[off:]
+    if kind in ('struct', 'enum', 'const', 'type', 'static'):
+        text = 'pub ' + text
+    return text
+
+
+def gen_traits(name, traits):
+    """TRUSTED specifications standing in for #[derive(..)] expansions (code behind macros).
+    Each generated impl is external_body and is picked up by the assumption scan."""
+    out = []
+    for t in traits:
+        if t == 'Clone':
+            out.append(f"""impl Clone for {name} {{
+    #[verifier::external_body]
+    fn clone(&self) -> (r: Self) ensures r == *self {{ unimplemented!() }}
+}}""")
+        elif t == 'Eq':
+            out.append(f"""impl vstd::std_specs::cmp::PartialEqSpecImpl for {name} {{
+    open spec fn obeys_eq_spec() -> bool {{ true }}
+    open spec fn eq_spec(&self, other: &{name}) -> bool {{ *self == *other }}
+}}
+impl PartialEq for {name} {{
+    #[verifier::external_body]
+    fn eq(&self, other: &{name}) -> (r: bool) {{ unimplemented!() }}
+}}
+impl Eq for {name} {{}}""")
+        elif t in ('OrdU64', 'OrdOpaque'):
+            if t == 'OrdU64':
+                out.append(f"""pub open spec fn spec_cmp_{name}(a: {name}, b: {name}) -> std::cmp::Ordering {{
+    if a.0 < b.0 {{ std::cmp::Ordering::Less }} else if a.0 == b.0 {{ std::cmp::Ordering::Equal }} else {{ std::cmp::Ordering::Greater }}
+}}""")
+            else:
+                out.append(f"pub uninterp spec fn spec_cmp_{name}(a: {name}, b: {name}) -> std::cmp::Ordering;")
+            out.append(f"""impl vstd::std_specs::cmp::PartialOrdSpecImpl for {name} {{
+    open spec fn obeys_partial_cmp_spec() -> bool {{ true }}
+    open spec fn partial_cmp_spec(&self, other: &{name}) -> Option<std::cmp::Ordering> {{ Some(spec_cmp_{name}(*self, *other)) }}
+}}
+impl PartialOrd for {name} {{
+    #[verifier::external_body]
+    fn partial_cmp(&self, other: &{name}) -> (r: Option<std::cmp::Ordering>) {{ unimplemented!() }}
+}}
+impl vstd::std_specs::cmp::OrdSpecImpl for {name} {{
+    open spec fn obeys_cmp_spec() -> bool {{ true }}
+    open spec fn cmp_spec(&self, other: &{name}) -> std::cmp::Ordering {{ spec_cmp_{name}(*self, *other) }}
+}}
+impl Ord for {name} {{
+    #[verifier::external_body]
+    fn cmp(&self, other: &{name}) -> (r: std::cmp::Ordering) {{ unimplemented!() }}
+}}
+#[verifier::external_body]
+pub broadcast proof fn axiom_{name}_obeys_cmp_laws()
+    ensures #[trigger] vstd::laws_cmp::obeys_cmp::<{name}>()
+{{}}""")
+        else:
+            raise ValueError('unknown trait generator ' + t)
+    return '\n'.join(out) + '\n'
+
+
+
 def original_derives(src, item):
     attrs = src[item.attrs_start:item.start]
     out = []
@@ -431,12 +529,24 @@ def render_item(repo_root, d, log, cache):
             pre += '#[derive(%s)]\n' % ', '.join(derives)
         ex.name = it.name
         ex.body_sha = sha(text)
+        if d.traits:
+            derives = [x for x in derives if not ((x == 'Clone' and 'Clone' in d.traits)
+                                                  or (x in ('PartialEq', 'Eq') and 'Eq' in d.traits)
+                                                  or (x in ('PartialOrd', 'Ord') and ('OrdU64' in d.traits or 'OrdOpaque' in d.traits)))]
+            pre = d.prefix + '\n' if d.prefix else ''
+            if derives and it.kind in ('struct', 'enum'):
+                pre += '#[derive(%s)]\n' % ', '.join(derives)
+            log.append({'rule': 'derive-as-trusted-spec', 'in': what, 'text': ' '.join(d.traits)})
         if it.kind == 'const' and d.ensures is not None:
             m = re.match(r'const\s+(\w+)\s*:\s*(.*?)\s*=\s*(.*);\s*$', text, re.S)
             if not m:
                 raise LostAnchor(f'{what}: cannot parse const item')
-            text = ('exec const %s: %s\n    ensures\n%s\n{ %s }' %
+            text = ('pub exec const %s: %s\n    ensures\n%s\n{ %s }' %
                     (m.group(1), m.group(2), d.ensures.rstrip(), m.group(3)))
+        else:
+            text = publicize(text, it.kind)
+        if d.traits:
+            text += '\n' + gen_traits(it.name, d.traits)
         return pre + text + '\n', ex, {}
     if it.body_start is None:
         raise LostAnchor(f'{what}: fn has no body')
@@ -486,7 +596,7 @@ def render_item(repo_root, d, log, cache):
     if d.decreases is not None:
         contract += '    decreases ' + d.decreases.strip() + '\n'
     pre = d.prefix + '\n' if d.prefix else ''
-    text = pre + sig.rstrip() + '\n' + contract + body + '\n'
+    text = pre + ('' if d.nopub else 'pub ') + sig.rstrip() + '\n' + contract + body + '\n'
     return text, ex, {}
 
 
@@ -527,6 +637,13 @@ LABEL_RE = re.compile(r'//\s*\[([^\]]+)\]')
 def assemble(template_path, repo_root):
     """Return dict(text, extracted[list of Extracted], log, labels{line->label}, fn_ranges)."""
     tpl = open(template_path).read()
+    base = os.path.dirname(os.path.dirname(os.path.dirname(os.path.abspath(template_path))))
+    for _ in range(20):
+        m = re.search(r'/\*@\s*include\s+(\S+)\s*@\*/', tpl)
+        if not m:
+            break
+        inc = open(os.path.join(base, m.group(1))).read()
+        tpl = tpl[:m.start()] + inc + tpl[m.end():]
     log = []
     cache = {}
     out = []
